@@ -116,6 +116,7 @@ func verifH_SendFC() {
 	ds := snd.(*defaultSender)
 	upd := 0
 	cancelled := false
+	inUpdate := false
 	// scenario 0: window updates only; scenario 1: a cancellation (and at most one update)
 	mayCancel := verifParam("cancel") == 1 && verifChoice("scenario", 2) == 1
 	if mayCancel && maxUpd > 1 {
@@ -137,7 +138,9 @@ func verifH_SendFC() {
 				// a conforming receiver never lets the window exceed 32 bits
 				verifAssume(uint64(ds.currentWindow.Load())+uint64(add) <= 0xffffffff)
 				granted += uint64(add)
+				inUpdate = true
 				snd.updateWindow(add)
+				inUpdate = false
 			}
 		case 2:
 			cancelled = true
@@ -146,6 +149,8 @@ func verifH_SendFC() {
 	})
 	verifOnBlock(func() {
 		// C05: a sender is parked only when it has no credit (and was not cancelled)
+		// (a window update is delivered on the receive loop's stack: it must never be what blocks)
+		verifAssert(!inUpdate, "C03+C05.window-update-never-blocks")
 		verifCover("sender-parked")
 		verifAssert(ds.currentWindow.Load() == 0, "C05.parked-only-without-credit")
 		verifAssert(len(ds.windowUpdates) == 0, "C05.parked-only-without-token")
